@@ -290,6 +290,99 @@ def runFinds (serveMisses : Bool) (m : Nat → Option Nat) : FindCache → List 
     uncached lookup is stored (`cfind false`) -/
 def expectedSchemaFindShape : List String := ["0:cache_key = (table, ensure_data_types)", "0:schema = self._find_cache.get(cache_key)", "0:if schema is None", "1:schema = super().find(table, raise_on_missing=raise_on_missing)", "1:if ensure_data_types and isinstance(schema, dict)", "2:schema = {col: self._to_data_type(dtype) if isinstance(dtype, str) else dtype for col, dtype in schema.items()", "1:self._find_cache[cache_key] = schema", "0:return schema"]
 
+/-! ### a class-level constant that holds an Expression NODE, embedded into parse results -/
+
+/-- the objects of the process: cell id ↦ content (cell 0 = the class constant, e.g. `Identifier("offset")`);
+    `returned` = the cells of the nodes handed out to callers so far, in order -/
+structure SharedHeap where
+  cells : List (Nat × Nat)
+  next : Nat
+  returned : List Nat
+  deriving Repr
+
+def hget (h : SharedHeap) (c : Nat) : Option Nat := (h.cells.find? fun p => p.1 == c).map (·.2)
+
+def heapInit (c0 : Nat) : SharedHeap := ⟨[(0, c0)], 1, []⟩
+
+/-- what a caller can do between two parses: parse again, or edit IN PLACE the i-th node it was given
+    (`normalize_identifiers` / `qualify` with an upper-casing dialect rewrite `Identifier.this`) -/
+inductive HeapOp where
+  | parse
+  | edit (i : Nat) (v : Nat)
+  deriving Repr
+
+/-- `copy = true`: the parser embeds `CONST.copy()` (a new object with the constant's content);
+    `copy = false`: it embeds the constant itself -/
+def heapStep (copy : Bool) (h : SharedHeap) : HeapOp → SharedHeap
+  | .parse =>
+    if copy then
+      match hget h 0 with
+      | some v => ⟨(h.next, v) :: h.cells, h.next + 1, h.returned ++ [h.next]⟩
+      | none => h
+    else { h with returned := h.returned ++ [0] }
+  | .edit i v =>
+    match h.returned[i]? with
+    | some c => { h with cells := (c, v) :: h.cells }
+    | none => h
+
+def heapRun (copy : Bool) : SharedHeap → List HeapOp → SharedHeap
+  | h, [] => h
+  | h, op :: ops => heapRun copy (heapStep copy h op) ops
+
+/-- what the next parse renders for the embedded node -/
+def nextParseRenders (copy : Bool) (h : SharedHeap) : Option Nat :=
+  let h' := heapStep copy h .parse
+  match h'.returned.getLast? with
+  | some c => hget h' c
+  | none => none
+
+/-- the audited constants that hold Expression nodes (live introspection of every dialect / parser / generator / tokenizer class
+    and of the parser, generator, transforms, optimizer, typing modules).  Audit: the DuckDB generator templates are only ever
+    instantiated through `replace_placeholders` (a copying transform) or `.copy()`; `ARRAY_EXCEPT_CONDITION` /
+    `ARRAY_INTERSECTION_CONDITION` are handed to `_array_bag_sql`, which does the same; `MAX_BIT_POSITION` is embedded into a
+    temporary tree inside the generator that is rendered and dropped (never returned to a caller); the `EXPRESSION_METADATA`
+    tables hold type nodes that the annotator copies into `.type`.  NO parser constant holds a node: whatever a parse returns
+    is built from fresh objects. -/
+def expectedExpressionNodeConstants : List (String × String × String × String × String) := [
+  ("sqlglot.dialects.databricks", "<module>", "EXPRESSION_METADATA", "dict", "uses=1 uncopied=0"),
+  ("sqlglot.dialects.databricks", "Databricks", "EXPRESSION_METADATA", "dict", "uses=1 uncopied=0"),
+  ("sqlglot.dialects.hive", "<module>", "EXPRESSION_METADATA", "dict", "uses=1 uncopied=0"),
+  ("sqlglot.dialects.hive", "Hive", "EXPRESSION_METADATA", "dict", "uses=1 uncopied=0"),
+  ("sqlglot.dialects.spark", "<module>", "EXPRESSION_METADATA", "dict", "uses=1 uncopied=0"),
+  ("sqlglot.dialects.spark", "Spark", "EXPRESSION_METADATA", "dict", "uses=1 uncopied=0"),
+  ("sqlglot.dialects.spark2", "<module>", "EXPRESSION_METADATA", "dict", "uses=1 uncopied=0"),
+  ("sqlglot.dialects.spark2", "Spark2", "EXPRESSION_METADATA", "dict", "uses=1 uncopied=0"),
+  ("sqlglot.generators.duckdb", "<module>", "MAX_BIT_POSITION", "Literal", "uses=1 uncopied=1"),
+  ("sqlglot.generators.duckdb", "<module>", "_SEQ_BASE", "Paren", "uses=1 uncopied=0"),
+  ("sqlglot.generators.duckdb", "<module>", "_SEQ_SIGNED", "Paren", "uses=2 uncopied=0"),
+  ("sqlglot.generators.duckdb", "<module>", "_SEQ_UNSIGNED", "Mod", "uses=2 uncopied=0"),
+  ("sqlglot.generators.duckdb", "DuckDBGenerator", "APPROXIMATE_SIMILARITY_TEMPLATE", "Select", "uses=1 uncopied=0"),
+  ("sqlglot.generators.duckdb", "DuckDBGenerator", "ARRAYS_ZIP_TEMPLATE", "Case", "uses=1 uncopied=0"),
+  ("sqlglot.generators.duckdb", "DuckDBGenerator", "ARRAY_BAG_TEMPLATE", "Case", "uses=1 uncopied=0"),
+  ("sqlglot.generators.duckdb", "DuckDBGenerator", "ARRAY_EXCEPT_CONDITION", "GT", "uses=1 uncopied=1"),
+  ("sqlglot.generators.duckdb", "DuckDBGenerator", "ARRAY_EXCEPT_SET_TEMPLATE", "Case", "uses=1 uncopied=0"),
+  ("sqlglot.generators.duckdb", "DuckDBGenerator", "ARRAY_INTERSECTION_CONDITION", "LTE", "uses=1 uncopied=1"),
+  ("sqlglot.generators.duckdb", "DuckDBGenerator", "BITMAP_CONSTRUCT_AGG_TEMPLATE", "Select", "uses=1 uncopied=0"),
+  ("sqlglot.generators.duckdb", "DuckDBGenerator", "IN_UNNEST_TEMPLATE", "Case", "uses=1 uncopied=0"),
+  ("sqlglot.generators.duckdb", "DuckDBGenerator", "MAPCAT_TEMPLATE", "Case", "uses=1 uncopied=0"),
+  ("sqlglot.generators.duckdb", "DuckDBGenerator", "MINHASH_COMBINE_TEMPLATE", "Select", "uses=1 uncopied=0"),
+  ("sqlglot.generators.duckdb", "DuckDBGenerator", "MINHASH_TEMPLATE", "Select", "uses=1 uncopied=0"),
+  ("sqlglot.generators.duckdb", "DuckDBGenerator", "NORMAL_TEMPLATE", "Add", "uses=1 uncopied=0"),
+  ("sqlglot.generators.duckdb", "DuckDBGenerator", "RANDSTR_TEMPLATE", "Select", "uses=1 uncopied=0"),
+  ("sqlglot.generators.duckdb", "DuckDBGenerator", "SEEDED_RANDOM_TEMPLATE", "Div", "uses=2 uncopied=0"),
+  ("sqlglot.generators.duckdb", "DuckDBGenerator", "SEQ_SIGNED", "Paren", "uses=0 uncopied=0"),
+  ("sqlglot.generators.duckdb", "DuckDBGenerator", "SEQ_UNSIGNED", "Mod", "uses=0 uncopied=0"),
+  ("sqlglot.generators.duckdb", "DuckDBGenerator", "STRTOK_TEMPLATE", "Case", "uses=1 uncopied=0"),
+  ("sqlglot.generators.duckdb", "DuckDBGenerator", "STRTOK_TO_ARRAY_TEMPLATE", "Case", "uses=1 uncopied=0"),
+  ("sqlglot.generators.duckdb", "DuckDBGenerator", "UUID_V5_TEMPLATE", "Subquery", "uses=1 uncopied=0"),
+  ("sqlglot.generators.duckdb", "DuckDBGenerator", "ZIPF_TEMPLATE", "Select", "uses=1 uncopied=0"),
+  ("sqlglot.typing.databricks", "<module>", "EXPRESSION_METADATA", "dict", "uses=1 uncopied=0"),
+  ("sqlglot.typing.hive", "<module>", "EXPRESSION_METADATA", "dict", "uses=1 uncopied=0"),
+  ("sqlglot.typing.spark", "<module>", "EXPRESSION_METADATA", "dict", "uses=1 uncopied=0"),
+  ("sqlglot.typing.spark2", "<module>", "EXPRESSION_METADATA", "dict", "uses=0 uncopied=0"),
+  ("sqlglot.typing.spark2", "<module>", "HIVE_EXPRESSION_METADATA", "dict", "uses=1 uncopied=0")
+]
+
 /-! ### methods that overwrite a configuration field for the duration of a sub-call (`_try_parse` and `error_level`) -/
 
 /-- how a block of Python code is left -/
